@@ -123,12 +123,23 @@ func (t *WorkerToken) spawn() error {
 		return err
 	}
 	defer detach()
-	// start process and wait for ready state
-	if err := cmd.Start(); err != nil {
+	// start process and wait for ready state. Starting and registering the
+	// process is one step as far as Close is concerned: either Close has begun
+	// and nothing is started any more, or Close will find the new process among
+	// those it has to signal.
+	t.mu.Lock()
+	if err := t.ctx.Err(); err != nil {
+		t.mu.Unlock()
 		return err
 	}
-	detach()
+	if err := cmd.Start(); err != nil {
+		t.mu.Unlock()
+		return err
+	}
 	pid := cmd.Process.Pid
+	t.procs[pid] = struct{}{}
+	t.mu.Unlock()
+	detach()
 	exited := make(chan struct{})
 	t.wg.Add(1)
 	go func() {
@@ -137,9 +148,6 @@ func (t *WorkerToken) spawn() error {
 		t.procsExited <- pid
 		close(exited)
 	}()
-	t.mu.Lock()
-	t.procs[pid] = struct{}{}
-	t.mu.Unlock()
 	ctx, cancel := context.WithTimeout(context.Background(), startTimeout)
 	defer cancel()
 	select {
